@@ -6,6 +6,7 @@
 #include <plibsys.h>
 #include <stdint.h>
 #include "vtrace.h"
+#include "galloc.h"
 static void hex (const char *s) { VT ("\""); if (s) for (; *s; s++) VT ("%02x", (unsigned char) *s); VT ("\""); }
 static int unhex (const char *h, char *out) { int n = 0; for (; h[0] && h[1]; h += 2) { unsigned v; sscanf (h, "%2x", &v); out[n++] = (char) v; } out[n] = 0; return n; }
 static int cmpstr (const void *a, const void *b) { return strcmp (*(char *const *) a, *(char *const *) b); }
@@ -21,6 +22,7 @@ int main (int argc, char **argv) {
 	in = fopen (argv[1], "r"); if (!in) return 2;
 	vt_open (argv[2]);
 	p_libsys_init (); p_libsys_shutdown (); p_libsys_init ();      /* the library is used after a shutdown / re-initialisation cycle */
+	if (!ga_install ()) return 2;      /* fresh memory is garbage, released memory is overwritten (galloc.h) */
 	while (fgets (line, sizeof line, in)) {
 		a[0] = b[0] = 0;
 		if (!strncmp (line, "file ", 5)) {
@@ -56,6 +58,7 @@ int main (int argc, char **argv) {
 		} else if (!strncmp (line, "end", 3) && ini) { p_ini_file_free (ini); ini = NULL; }
 	}
 	if (ini) p_ini_file_free (ini);
+	p_mem_restore_vtable ();
 	p_libsys_shutdown ();
 	vt_close ();
 	return 0;
